@@ -548,40 +548,36 @@ T2_SIDES = {
 
 
 def _start_latest_reads(F, g, side="latest"):
-    """reads of `<start place>.time.<side>` in body g: the base is a local/upvar named start*, a place reached through a field `start`,
-    or the parameter of a closure applied to a value reached through a field `start`"""
+    """reads of `<vehicle place>.time.<side>` in body g that are not known to concern the END place: the vehicle place type is shared by `detail.start` and
+    `detail.end`, so a read counts unless its provenance (field path, closure-argument receiver, variable name) says `end`"""
     fn = F.fns[g]
     hits = []
     for p in util.all_places(fn):
         pf = mir.proj_fields(p)
-        if len(pf) < 2 or pf[-1][1] != side or pf[-2][1] != "time":
+        if len(pf) < 2 or pf[-1][1] != side or pf[-2][1] != "time" or not pf[-2][0].endswith("::VehiclePlace"):
             continue
         names = [x[1] for x in pf[:-2]]
         l = p["l"]
         nm = fn["names"].get(str(l), "")
-        if "end" in names:
-            continue
-        if "start" in names or nm.startswith("start"):
-            hits.append(p)
-            continue
+        is_end = "end" in names or nm.startswith("end") or nm.endswith("_end")
         if fn["kind"] == "Closure" and l == 1 and pf and str(pf[0][1]).isdigit():
             ups = fn.get("upvars", [])
             i = int(pf[0][1])
-            if i < len(ups) and ups[i][0].startswith("start"):
-                hits.append(p)
-                continue
+            if i < len(ups) and (ups[i][0].startswith("end") or ups[i][0].endswith("_end")):
+                is_end = True
         if fn["kind"] == "Closure" and 2 <= l <= fn["argc"]:
-            par = F.fns.get(fn["parent"])
-            if not par:
-                continue
-            for bi, si, st in mir.stmts(par):
-                if st["r"]["k"] == "agg" and st["r"].get("n") == g and not st["d"]["p"]:
-                    cl = st["d"]["l"]
-                    for bj, t in mir.calls(par):
-                        if any(mir.is_place(a) and a["l"] == cl and not a["p"] for a in t["args"][1:]) and t["args"]:
-                            tr = mir.trace(par, t["args"][0])
-                            if any("start" in pr and "end" not in pr for k, v, pr in tr):
-                                hits.append(p)
+            par = F.fns.get(g[:g.rindex("::{closure#")]) if "::{closure#" in g else None      # the immediately enclosing body
+            if par:
+                for bi, si, st in mir.stmts(par):
+                    if st["r"]["k"] == "agg" and st["r"].get("n") == g and not st["d"]["p"]:
+                        cl = st["d"]["l"]
+                        for bj, t in mir.calls(par):
+                            if any(mir.is_place(a) and a["l"] == cl and not a["p"] for a in t["args"][1:]) and t["args"]:
+                                tr = mir.trace(par, t["args"][0])
+                                if any("end" in pr and "start" not in pr for k, v, pr in tr):
+                                    is_end = True
+        if not is_end:
+            hits.append(p)
     return hits
 
 
